@@ -270,6 +270,9 @@ class SymArr(np.ndarray):
         uf = _frompy(f, ufunc.nin)
         if method == '__call__':
             res = uf(*ins)
+        elif method == 'reduce' and ufunc in (np.maximum, np.minimum) and ins[0].ndim >= 1 \
+                and kw.get('initial', None) in (None, np._NoValue):
+            res = _reduce_extreme(ins[0], kw.get('axis', 0), kw.get('keepdims', False), ufunc is np.maximum)
         elif method in ('reduce', 'accumulate'):
             a = ins[0]
             if method == 'reduce':
@@ -367,6 +370,31 @@ class SymArr(np.ndarray):
 
     def __abs__(self):
         return np.absolute(self)
+
+
+def _reduce_extreme(a, axis, keepdims, is_max):
+    if axis is None:
+        if a.size == 0:
+            raise ValueError('zero-size array to reduction operation which has no identity')
+        r = S.sym_extreme_n(list(a.ravel()), is_max)
+        if keepdims:
+            o = np.empty((1,) * a.ndim, dtype=object)
+            o.flat[0] = r
+            return o
+        return r
+    if isinstance(axis, tuple):
+        raise SymUnsupported('max/min over several axes')
+    m = np.moveaxis(a, axis, -1)
+    if m.shape[-1] == 0:
+        raise ValueError('zero-size array to reduction operation which has no identity')
+    out = np.empty(m.shape[:-1], dtype=object)
+    for ix in np.ndindex(*m.shape[:-1]):
+        out[ix] = S.sym_extreme_n(list(m[ix]), is_max)
+    if keepdims:
+        out = np.expand_dims(out, axis)
+    if out.ndim == 0:
+        return out[()]
+    return out
 
 
 def _fix_index(idx):
